@@ -131,6 +131,7 @@ def twice(f, *args):
       3. results returned earlier by the same function in this process are compared with snapshots taken when they were returned
          (a result that is a view of a module-level scratch buffer is overwritten by the next call).
     Returns (first result, message or None)."""
+    import numpy as np
     name = getattr(f, "__module__", "?") + "." + getattr(f, "__name__", "function")
     snaps = [_snap(a) for a in args]
     r1 = f(*args)
@@ -141,6 +142,26 @@ def twice(f, *args):
     r2 = f(*args)
     if msg is None and not _same(r1, r2):
         msg = "%s gives a different result when called a second time with the same argument objects" % name
+    # 4. what a function returns is the caller's to modify: the second result is overwritten in place and the function called a
+    #    third time (a memo that hands out its own stored array is corrupted by the first caller who scales "his" matrix)
+    try:
+        parts = [q for q in (r2 if isinstance(r2, tuple) else (r2,)) if isinstance(q, np.ndarray) and q.flags.writeable and q.size
+                 and q.dtype.kind in "fiu"]
+        own = [q for q in parts if not any(isinstance(a, np.ndarray) and np.shares_memory(a, q) for a in args)]
+        shared_with_first = any(np.shares_memory(q, p_) for q in own
+                                for p_ in (r1 if isinstance(r1, tuple) else (r1,)) if isinstance(p_, np.ndarray))
+        if own and msg is None:
+            for q in own:
+                q *= 3
+                q += 1
+            r3 = f(*args)
+            if not _same(r3, keep1):
+                msg = "%s: overwriting an array it returned changes what it returns next (it hands out storage it keeps using)" % name
+            if shared_with_first:
+                r1 = keep1 if not isinstance(keep1, tuple) else keep1
+    except Exception as ex_:
+        if msg is None:
+            msg = "%s: third call after the caller modified the returned array raised %r" % (name, ex_)
     if msg is None and not _same(r1, keep1):
         msg = "%s: the value returned by the first call changed when the function was called again" % name
     old = _KEPT.setdefault(name, [])
